@@ -195,6 +195,7 @@ def run_property(pid, tier, seed, replay=None):
     # 5. correspondence
     rng = Rng(seed ^ int(hashlib.sha256(pid.encode()).hexdigest()[:8], 16))
     violations, stats_all, samples, n_eval, nontriv = [], {}, [], 0, set()
+    crashed = set()        # families whose harness process died: their failing case cannot be shrunk by re-running
     drift = []
 
     def run_stream(fam, cases, label):
@@ -245,6 +246,14 @@ def run_property(pid, tier, seed, replay=None):
                     extra += fam.generate(rng, n2, "thorough", pid)
                     d += run_stream(fam, extra, "search")
                 violations += [(fam, x) for x in d]
+            except core.HarnessCrash as e:
+                # the implementation died on a concrete case (allocator abort, non-unwinding panic, signal): that case is
+                # the replay
+                traceback.print_exc()
+                violations.append((fam, {"index": 0, "case": e.case, "profile": e.profile, "impl": [[-1, e.rc]], "model": [],
+                                         "binding_fields": None,
+                                         "predicate_failed": f"the harness process died (rc={e.rc}) while running this case: {e.msg.strip()[-200:]}"}))
+                crashed.add(fam.NAME)
             except Exception as e:
                 traceback.print_exc()
                 proof["ok"] = False
@@ -299,7 +308,7 @@ def run_property(pid, tier, seed, replay=None):
             if not unknown:
                 continue
             unknown.sort(key=lambda v: (0 if v.get("predicate_failed") else 1, len(v["case"])))
-            best = shrink(pid, fam, unknown[0], workdir) if model_ok else unknown[0]
+            best = shrink(pid, fam, unknown[0], workdir) if model_ok and name not in crashed else unknown[0]
             # a family whose cross_checks state the whole property on traces: a bare model/implementation
             # difference shows the tie is broken, not that the property fails on this input
             suffix = " no-failing-input-found" if getattr(fam, "PREDICATE_COMPLETE", False) and not best.get("predicate_failed") else ""
